@@ -10,7 +10,7 @@ from ..model import ir
 
 
 def bases(tier):
-    out = [("kinds", kinds.kinds_schema())]
+    out = [("kinds", kinds.kinds_schema(presmix=False))]
     cat = shapes.catalogue("quick")
     for i in ((2, 9, 15) if tier == "quick" else range(0, len(cat), 2)):
         s, _ = cat[i]
@@ -20,7 +20,7 @@ def bases(tier):
     for i in ((0, 28, 47) if tier == "quick" else range(0, len(hs), 4)):
         out.append(("header-%d" % i, hs[i][0]))
     if tier != "quick":
-        out.append(("kinds-be", kinds.kinds_schema("bigEndian")))
+        out.append(("kinds-be", kinds.kinds_schema("bigEndian", presmix=False)))
         out.append(("dims", headers.dim_schemas(with_ref_num=True)[0][0]))
     return out
 
